@@ -58,11 +58,15 @@ T = {
 }
 
 
+READY = os.path.join(VERIF, "tools", "ready.txt")   # ids validated on the unchanged tree (one per line)
+
+
 def main():
     checks, na = [], []
+    ready = set(open(READY).read().split()) if os.path.exists(READY) else set()
     for pid in sorted(T):
         tech, text, note = T[pid]
-        if os.path.exists(os.path.join(VERIF, "checks", pid.lower() + ".py")):
+        if pid in ready and os.path.exists(os.path.join(VERIF, "checks", pid.lower() + ".py")):
             checks.append({
                 "property_id": pid,
                 "quick_cmd": f"./check {pid} quick",
